@@ -104,6 +104,10 @@ def check(ctx):
     c09.r_equations(ctx)
     c09.r_stack(ctx)
     c04.r_zip(ctx, 'R03.6')
+    # values that enter the program at instantiation (arguments) are built by the layout constructors: a mis-built value
+    # does not unify with the declared type
+    from . import c07 as c07_
+    c07_.r_layout_tables(ctx, 'R03.7', c07_.LAYOUT_CONSTRUCT, 20)
     from . import c06
     c06.panic_rule(ctx, 'R03.3', entries=['TemplateProgram::instantiate', 'CompiledProgram::commit'], what='instantiate/commit')
     from . import c12
